@@ -478,7 +478,7 @@ func (segstore *SegStore) AddEntry(streamid string, indexName string, flush bool
 			return err
 		}
 
-		if matchedPCols {
+		if matchedPCols || segstore.pqTracker.matchesNoColumns {
 			applyStreamingSearchToRecord(segstore, segstore.pqTracker.PQNodes, segstore.wipBlock.blockSummary.RecCount)
 		}
 
